@@ -149,9 +149,6 @@ def harness(ast0, ast1, roles, orig_names, bound_names):
             bad = compare_runs(prover, r0, r1, orig_names)
         if bad is None:
             return None
-        if ex.path_tainted:
-            ex.stats.undecided += 1
-            return None
         m = state["model"] or ex.path_model()
         conc = {}
         if m is not None:
